@@ -201,6 +201,17 @@ def find_sites(repo, res, targets):
 def expand_kwstar(f, call):
     """`g(**opts)` where the local `opts` is assigned once from dict(k=v, ...) or {"k": v, ...} with constant string
     keys (and never stored into afterwards) is the same call with explicit keywords k=v"""
+    new_args, star_changed = [], False
+    for a in call.args:
+        if isinstance(a, ast.Starred) and isinstance(a.value, ast.Name):
+            defs = _assignments(f, a.value.id)
+            if len(defs) == 1 and isinstance(defs[0], (ast.Tuple, ast.List)) and not any(isinstance(e, ast.Starred) for e in defs[0].elts):
+                new_args.extend(defs[0].elts)
+                star_changed = True
+                continue
+        new_args.append(a)
+    if star_changed:
+        call = ast.fix_missing_locations(ast.copy_location(ast.Call(func=call.func, args=new_args, keywords=list(call.keywords)), call))
     if not any(kw.arg is None for kw in call.keywords):
         return call
     new_kw = []
@@ -456,6 +467,10 @@ def check_registry(repo, res, chk, options):
         for o in sorted(set(cp.all_param_names()) & options):
             chk.violation("E3-fwd", cp.key, "param:%s" % o, "create_preprocessor captures option `%s` as an explicit parameter and so removes it from **%s" % (o, kw), file=PRE, line=cp.lineno)
     reg = [n for n in walk_local(cp.node) if isinstance(n, ast.Call) and _is_registry_call(n)]
+    if not reg:
+        # cls = get_config(X)[mode]; return cls(decay_group, **kwargs)
+        tmp = {x.targets[0].id for x in walk_local(cp.node) if isinstance(x, ast.Assign) and isinstance(x.targets[0], ast.Name) and isinstance(x.value, ast.Subscript) and isinstance(x.value.value, ast.Call)}
+        reg = [n for n in walk_local(cp.node) if isinstance(n, ast.Call) and isinstance(n.func, ast.Name) and n.func.id in tmp]
     if len(reg) != 1:
         raise AnalysisError("create_preprocessor: expected one registry dispatch call, found %d" % len(reg))
     call = reg[0]
